@@ -28,6 +28,44 @@ core.ensure_repo_on_path()
 
 import ttconv.tt as tt  # noqa: E402  (the template state: imported, nothing converted yet)
 
+# A simulated third-party document filter (the registry in DocumentFilter.__init_subclass__ is part of the CLI's
+# contract): it is not idempotent and does not commute with lcd, so the order and multiplicity of --filter matter.
+import dataclasses  # noqa: E402
+import ttconv.model as _model  # noqa: E402
+from ttconv.config import ModuleConfiguration as _ModuleConfiguration  # noqa: E402
+from ttconv.filters.document_filter import DocumentFilter as _DocumentFilter  # noqa: E402
+import ttconv.style_properties as _styles  # noqa: E402
+
+
+@dataclasses.dataclass
+class _ProbeConfig(_ModuleConfiguration):
+  tag: str = "probe"
+
+  @classmethod
+  def name(cls):
+    return "probe"
+
+
+class _ProbeFilter(_DocumentFilter):
+  """Appends a marker span to every paragraph and paints it (lcd removes the colour again)."""
+
+  @classmethod
+  def get_config_class(cls):
+    return _ProbeConfig
+
+  def process(self, doc):
+    body = doc.get_body()
+    if body is None:
+      return doc
+    for e in list(body.dfs_iterator()):
+      if isinstance(e, _model.P):
+        span = _model.Span(doc)
+        span.push_child(_model.Text(doc, "[" + self.config.tag + "]"))
+        span.set_style(_styles.StyleProperties.FontStyle, _styles.FontStyleType.italic)
+        e.push_child(span)
+    return doc
+
+
 ID = "C19"
 LEVEL = "exploration"
 SOFT_TIMEOUT = 120
@@ -139,7 +177,8 @@ def gen_op(rng, k, stats):
       if len(data) <= 4000:
         break
   ofmt = rng.choice(OUT_FORMATS)
-  spec = {"kind": "convert", "data": base64.b64encode(data).decode("ascii"), "filters": rng.choice([[], [], ["lcd"], ["lcd"], ["lcd", "lcd"], ["nope"], ["nope", "lcd"]])}
+  spec = {"kind": "convert", "data": base64.b64encode(data).decode("ascii"), "filters": rng.choice([[], [], ["lcd"], ["lcd"], ["lcd", "lcd"], ["nope"], ["nope", "lcd"], ["probe"], ["probe", "probe"],
+                                                                                                           ["lcd", "probe", "lcd"], ["probe", "lcd"], ["lcd", "probe"], ["probe", "nope", "probe"]])}
   focus = []
   # input type
   mode = rng.choice(["ext", "ext", "itype", "itype-misleading-ext", "bad-ext", "bad-itype"])
